@@ -548,6 +548,21 @@ fn main() {
         );
     }
 
+    // leg 3b: every escape sequence
+    {
+        let texts = gen::escape_texts();
+        text_leg(
+            &ctx,
+            &acc,
+            "escape_sequences",
+            &texts,
+            true,
+            "the string literal \"\\uXXXX\" for every one of the 65536 code units, \"\\c\" for every printable ASCII c, and malformed / repeated-u forms: no panic, no hang, chunked == one-shot under all chunkings, and round trip of the parsed text (every BMP character as a one-character text) through the three printers; non-trivial as in chunking_printed",
+            json!({"code_units": "0x0000..=0xffff", "single_char_escapes": "0x20..=0x7e"}),
+            cap,
+        );
+    }
+
     // leg 4: deep and long inputs; leg 5: typed values
     deep_leg(&ctx, &acc, &cfg);
     typed_leg(&ctx, &acc);
